@@ -3,6 +3,7 @@ import Props.Driver
 import DroopProofs.SplitB
 import DroopProofs.PermBMeek
 import DroopProofs.PermBPrf
+import DroopProofs.PermBQpq
 import DroopProofs.CaseInitMeek
 /-!
 # C10 at run level: the count does not depend on the order of the ballot lines (all seven Gregory rule names)
@@ -34,7 +35,11 @@ the list is stored; every other step of the driver never reads the ballot list.
 meek-prf (`prf_ballot_order`, `DroopProofs/PermBPrf.lean`): the same argument for the reference rule's distribution; it never reads
 equal rankings, so the statement has no hypothesis on the case at all.
 
-QPQ, equal rankings, and the file-level presentation (comments, layout, nicknames) are decided by re-running the real
+QPQ (`qpq_ballot_order`, `DroopProofs/PermBQpq.lean`, stated for the guarded arithmetic the rule forces and for fixed-point): QPQ maps
+per-ballot functions over the list, folds commuting additions over it and sums the multipliers once; no hypothesis on the case.
+So reordering the ballot lines is a theorem for all eleven rule names.
+
+Equal rankings, and the file-level presentation (comments, layout, nicknames) are decided by re-running the real
 code (C10 check) and by the reader theorems of C15.
 -/
 namespace Droop.C10
@@ -130,6 +135,24 @@ theorem prf_ballot_order (p : Nat) (c : Case) (hr : c.rule = "meek-prf")
   unfold runRuleSt
   simp only [runRuleSt', hr]
   exact prf_xB (fixedArith p) (XPrf_of_natPerm (fixedArith p) (fixed_lawful p) hπ) _ _
+
+/-- **the order of the ballot lines is irrelevant, QPQ** — every lawful arithmetic (in particular the guarded arithmetic the rule
+    forces, and fixed-point), no hypothesis on the case -/
+theorem qpq_ballot_order {α : Type} [CommRing α] [LinearOrder α] [IsStrictOrderedRing α] (A : Arith α) (hA : LawfulArith A)
+    (c : Case) (hr : c.rule = "qpq") {π : ∀ {β : Type}, List β → List β} (hπ : NatPerm π) :
+    runRuleSt A (reorder π c) = (runRuleSt A c).map (permB π) := by
+  have h1 : runRuleSt A (reorder π c) = runRuleSt' A c (permB π (initState A c)) := by
+    unfold runRuleSt
+    rw [runRuleSt'_reorder, initState_reorder A hπ]
+  rw [h1]
+  unfold runRuleSt
+  simp only [runRuleSt', hr]
+  exact qpq_xB A (XQ_of_natPerm A hA hπ) _
+
+/-- the deployed instance: guarded arithmetic with any precision and guard -/
+theorem qpq_ballot_order_guarded (p g : Nat) (c : Case) (hr : c.rule = "qpq") {π : ∀ {β : Type}, List β → List β} (hπ : NatPerm π) :
+    runRuleSt (guardedArith p g) (reorder π c) = (runRuleSt (guardedArith p g) c).map (permB π) :=
+  qpq_ballot_order (guardedArith p g) (guarded_lawful p g) c hr hπ
 
 /-! ## splitting one ballot line in two, merging two identical adjacent lines into one -/
 
